@@ -11,7 +11,7 @@ import re
 
 from engine import build, fwd, sym, flow
 from engine.facts import cls_template, strip_ns, top_term, subterms, tstr
-from rules import common
+from rules import common, c01
 
 LEVEL = 'other'
 
@@ -46,12 +46,11 @@ def check_chain(run, db):
         n += 1
         r = one_ret(db, f, {0: 'mem'})
         _emit(run, f, db, r == '(this.end_ - $mem)', 'capacity(mem) = end_ - mem', 'capacity(mem) returns %s' % r, site('detail::joint_stack::capacity'))
-    for f in db.find(cls_t='detail::joint_stack', short='allocate'):
-        n += 1
-        S = [s for s in fwd.summarize(f, db=db, roles={0: 'size', 1: 'alignment'}, no_forward=True) if s.end == 'return']
-        okk = len(S) == 1 and S[0].ret is not None and S[0].ret.startswith('this.stack_.allocate(this.end_,$size,$alignment')
-        _emit(run, f, db, okk, 'allocates from stack_ bounded by end_', 'joint_stack::allocate returns %s' % (S[0].ret if S else None),
-              {'function': 'detail::joint_stack::allocate', 'role': 'bounded by end_'}, rule='R-JOINT.bound')
+    for short in ('allocate', 'bump'):
+        for f in db.find(cls_t='detail::joint_stack', short=short):
+            # the general bound rule of C01 (helpers of the fixed stack inlined), with the region end required to be end_
+            n += c01.check_bound(run, db, fns=[f], rule='R-JOINT.bound', end_pred=lambda rest: any('this.end_' in a for a in rest),
+                                 site_fn='detail::joint_stack::' + short)
     # get_memory(obj) = (char*)&obj + sizeof(T)
     for f in db.find(short='get_memory'):
         if '::detail::' not in f.name:
